@@ -131,7 +131,8 @@ def check_proj(case):
         if onp.any(r < lb) or onp.any(r > ub):
             fails.append(Failure('tr-project-box', 'project_onto_tr returned a point outside the box by %.3e' % max((lb - r).max(), (r - ub).max())))
         d = onp.linalg.norm(r - xk)
-        if d > Delta * (1 + 1e-9) + 8e-12 * onp.linalg.norm(x - xk):
+        # the projected point is stored in absolute coordinates: its distance to the centre is resolved to a few ulp of the coordinates
+        if d > Delta * (1 + 1e-9) + 8e-12 * onp.linalg.norm(x - xk) + 8 * EPS * math.sqrt(len(xk)) * max(onp.abs(xk).max(), onp.abs(x).max()):
             fails.append(Failure('tr-project-ball', 'project_onto_tr: distance to the centre %.9g exceeds the radius %.9g (ratio |x-xk|/radius %.1e)'
                                  % (d, Delta, onp.linalg.norm(x - xk) / Delta)))
         if case['ratio'] <= 0.999 and not onp.allclose(r, P, rtol=0, atol=1e-12 * (1 + onp.abs(P).max())):
